@@ -15,6 +15,11 @@ CHECKS = {
         text="Requirements are given in DRAM clocks with phase positions; the controller is configured with the smallest cycle counts C16's postcondition allows. BankMachine: tRCD/tRP/tRAS/tRC/write-recovery for explicit, auto- and refresh precharge as postconditions over ghost ages for every steering phase (inductive). Controller: tCCD, tRRD, tFAW, tWTR, tRP-before-REF/ZQCS, tRFC, tZQCS and the per-bank spacings with the real steering phases as window obligations proved from ANY state satisfying the (proved) C02 invariants, i.e. for unbounded time and all schedules.",
         note="Per configuration (requirement tuples chosen so each constraint binds; list in evidence). Auto-precharge by its weakest reading; tRTP not in the property's list. The link cycles->ns is C16's postcondition.",
     ),
+    "C04": dict(
+        engine="HWVC", category="proof", technique="contract-based deductive verification: induction, k-induction and bounded-response-from-arbitrary-state obligations on the real Refresher and LiteDRAMController (z3); deadline arithmetic as a z3 integer lemma",
+        text="Refresher contracts: tick exactly every tREFI cycles; one request per `postponing` ticks; from ANY in-range state back to IDLE within B cycles; never busy longer than B (k-induction) hence no request pulse is ever dropped; a granted request runs exactly `postponing` x (PREA, tRP, REF, tRFC); an elapsed ZQCS period is served at the next refresh. Grant latency A_G on the real controller: from any state satisfying the C02 invariants with the refresher requesting, the bus is handed over within G cycles whatever the ports do; bank machines resume afterwards. The k-th-refresh deadline follows by a z3 integer lemma.",
+        note="Per configuration (postponing 1/2/4/8, ZQCS, G per controller config). Config precondition explicit: busy bound < postponing*tREFI. Start-up phantom rounds of the sequencer (postponing>1) handled by a simulated deterministic prefix asserted as an invariant. tREFI cycles vs ns: C16.",
+    ),
     "C06": dict(
         engine="HWVC", category="proof", technique="contract-based deductive verification: combinational validity (z3) of layout/bijection postconditions on the expression trees returned by the real address-mapping functions, per geometry",
         text="For each geometry the expressions produced by the real get_bank_address/get_row_column_address/_AddressSlicer and the real crossbar routing are proved, for all port addresses, to equal the explicit column->bank->row layout (hence bijective), injective on two symbolic addresses, never to use A10 as a column bit, and to walk columns, banks, rows in that order; the bank machine's use of the address on ACT/RD/WR is a postcondition of the real BankMachine.",
